@@ -45,3 +45,15 @@ package objects
 //@   ensures err != nil ==> d.pos == old(d.pos)
 //@   ensures d.buf == old(d.buf)
 //@   replay NewUintListDecoder(false).readUint32($r)
+
+//@ func (*UintListDecoder).Read
+//@   props C17 C18
+//@   requires len(d.buf) == 4 && r != nil
+//@   modifies d.*, d.buf[:], d.sl[:], stream(r)
+//@   ensures [C18] err == nil ==> len(result1) == sbe32(r, old(pos(r))) && pos(r) == old(pos(r)) + 4 + 4*len(result1) && result0 == 4 + 4*len(result1)
+//@   ensures [C18] err == nil ==> forall(j, 0, len(result1), result1[j] == sbe32(r, old(pos(r)) + 4 + 4*j))
+//@   loop 1 invariant len(d.buf) == 4 && i <= n && len(sl) == i && d.pos == 4 + 4*i && pos(r) == old(pos(r)) + 4 + 4*i && n == sbe32(r, old(pos(r)))
+//@   loop 1 invariant forall(j, 0, i, sl[j] == sbe32(r, old(pos(r)) + 4 + 4*j))
+//@   loop 1 invariant fresh(sl) || (reg(sl) == reg(old(d.sl)) && off(sl) == off(old(d.sl)) && cap(sl) == cap(old(d.sl)))
+//@   loop 1 decreases n - i
+//@   replay NewUintListDecoder(false).Read($r)
